@@ -10,7 +10,7 @@ Model driver for C16. Line protocol (fields separated by one space; "-" = empty 
   arith <imagehex> <mounts>
     -> "img=<estimateDockerImageSize> scratch=<EstimateScratchSpace>"
   rq <quota>:<cancreate> <types> <ents>
-      types = idle:booting:mode , ...   (index = type id; mode = i|f|s)
+      types = idle:booting:mode , ...   (index = type id; mode = i|f|s|x)
       ents  = uuid:prio:state:type:flags , ...   (state = Q|L|O; flags ⊆ {r,k} or "-")
     -> the allowed set of call traces joined by "|" (one per outcome of the unstable priority sort)
        trace = ev,ev,...;L=<sorted uuids handed to lockContainer>
@@ -99,7 +99,7 @@ def stepArith (image mounts : String) : String :=
 open ArvVerif.C16.RQ
 
 def parseMode? (s : String) : Option StartMode :=
-  if s == "i" then some .byIdle else if s == "f" then some .alwaysFail else if s == "s" then some .alwaysOK else none
+  if s == "i" then some .byIdle else if s == "f" then some .alwaysFail else if s == "s" then some .alwaysOK else if s == "x" then some .failFirst else none
 
 def parsePoolType? (s : String) : Option (Nat × Nat × StartMode) :=
   match s.splitOn ":" with
@@ -179,7 +179,7 @@ def stepRQ (pool types ents : String) : String :=
     let tsa := ts.toArray
     let lingering := fun (u : Nat) => es.any (fun p => p.1.uuid == u && p.2)
     let stub : Stub :=
-      { quota := q, canCreate := cc, created := 0
+      { quota := q, canCreate := cc, created := 0, starts := fun _ => 0
         idle := fun t => match tsa[t]? with | some (i, _, _) => i | none => 0
         mode := fun t => match tsa[t]? with | some (_, _, m) => m | none => .byIdle
         lingering := lingering }
